@@ -377,6 +377,13 @@ def pThe (env : Env) : Nat → List Tok → Option (Expr × List Tok)
           if obj.kw "sprite" then
             match pE5 env f r2 with
             | some (e, r3) =>
+              -- `the P of sprite a intersects b`: the object is the intersection test, not sprite a
+              let isTest := match r3 with | t3 :: _ => t3.kw "intersects" || t3.kw "within" | [] => false
+              if isTest then
+                match pE5 env f r1 with
+                | some (e', r3') => some (.oprop p e', r3')
+                | none => none
+              else
               match tblLookupName tblSprite p with
               | some k => some (.the .sprite k [e], r3)
               | none => some (.oprop p (.call "sprite".toList [e]), r3)
